@@ -3313,12 +3313,15 @@ fn convert_group_entry<'a>(
         is_cut = true;
       }
       Rule::member_key => {
+        // The member key has its own span (not the span of the whole entry)
+        #[cfg(feature = "ast-span")]
+        let member_key_span = pest_span_to_ast_span(&inner.as_span(), input);
         member_key = Some(convert_member_key_simple(
           inner,
           input,
           is_cut,
           #[cfg(feature = "ast-span")]
-          span,
+          member_key_span,
         )?);
       }
       Rule::type_expr => {
